@@ -224,6 +224,14 @@ func execute(p *program) (o observation) {
 	c.GetTransport().WrapRoundTripFunc(func(rt http.RoundTripper) req.HttpRoundTripFunc {
 		return func(q *http.Request) (*http.Response, error) {
 			attempt++
+			if attempt >= len(p.Script)+2 {
+				// runaway retry loop (every script ends in a cancellation that must stop it): end it
+				// the hard way; the oracle reports attempts:beyond-script
+				if attempt >= len(p.Script)+40 {
+					panic("harness: runaway retry loop")
+				}
+				return nil, fmt.Errorf("E2! harness stop: %w", context.Canceled)
+			}
 			w := wireObs{Method: q.Method, URL: q.URL.Scheme + "://" + q.URL.Host + q.URL.Path, Query: q.URL.RawQuery,
 				Header: map[string][]string{}, CLen: q.ContentLength}
 			for k, vs := range q.Header {
